@@ -184,6 +184,19 @@ def oracle(case):
                 if [f.key for f in e.fields] != [f.key for f in s.ignore_error_block.fields]:
                     return "duplicate-field block at %d lost field occurrences" % i
                 keys = [f.key for f in e.fields]
+                # ... in SOURCE order, read off the raw text (not off the splitter's own output): the occurrences
+                # `key =` are found one after the other in the block's text, and the start lines never decrease
+                import re as _re
+                pos = 0
+                for f in e.fields:
+                    m = _re.compile(_re.escape(f.key) + r"\s*=").search(g.raw, pos)
+                    if m is None:
+                        return ("duplicate-field block at %d: field occurrences %r are not in source order (raw %r)"
+                                % (i, keys, g.raw[:80]))
+                    pos = m.end()
+                lines = [f.start_line for f in e.fields]
+                if lines != sorted(lines):
+                    return "duplicate-field block at %d: start lines of the field occurrences decrease: %r" % (i, lines)
                 if set(g.duplicate_keys) != {k for k in keys if keys.count(k) > 1}:
                     return "duplicate-field block at %d reports keys %r" % (i, sorted(g.duplicate_keys))
                 if lib.entries_dict.get(e.key) is e:
